@@ -53,3 +53,4 @@ func mustB(b []byte, err error) []byte   { return core.MustB(b, err) }
 func TestC10Registry(t *testing.T) { core.SelfTest(t, registry) }
 func TestC10(t *testing.T)         { core.Run(t, registry) }
 func TestC10Sweep(t *testing.T)    { core.Sweep(t, registry) }
+func FuzzC10(f *testing.F)         { core.Fuzz(f, registry) }
